@@ -6,7 +6,7 @@ class C34(Spec):
     drv = "drv_c34"
     harness = "h_c34"
     lean_deps = ("C33",)
-    required_theorems = ("C34.rebuild_exact", "C34.available_when_distinct", "C34.missing_waits",
+    required_theorems = ("C34.rebuild_exact", "C34.rebuild_or_wait", "C34.available_when_distinct", "C34.missing_waits",
                          "C34.timeout_requests_full", "C34.no_request_for_old_height")
     level_text = ("Lean theorems over the light-block model shared with C33 (addLtBlock / buildPendBlock incl. in-place "
                   "group expansion / buildPendList / pendBlockLoop tick; the pool as the first-push-wins short-hash map of "
